@@ -46,6 +46,44 @@ Theorem C14_named_categories_excluded :
      [73;110;115;116;105;116;117;116;105;111;110]]%N = true.
 Proof. vm_compute. reflexivity. Qed.
 
+(** the default exclude list is no weaker than the list the library ships at the pinned commit (the property's
+    "patient, physician, dates, UIDs, institution, ..."): every one of those 29 literals still contains a current
+    exclude pattern, so every key containing one of them is still excluded (patterns may be added or generalised,
+    not dropped, narrowed or fused) *)
+Definition baseline_excludes : list str :=
+  [[80; 97; 116; 105; 101; 110; 116]%N;
+   [80; 104; 121; 115; 105; 99; 105; 97; 110]%N;
+   [79; 112; 101; 114; 97; 116; 111; 114]%N;
+   [68; 97; 116; 101]%N;
+   [66; 105; 114; 116; 104]%N;
+   [65; 100; 100; 114; 101; 115; 115]%N;
+   [73; 110; 115; 116; 105; 116; 117; 116; 105; 111; 110]%N;
+   [83; 116; 97; 116; 105; 111; 110]%N;
+   [83; 105; 116; 101; 78; 97; 109; 101]%N;
+   [65; 103; 101]%N;
+   [67; 111; 109; 109; 101; 110; 116]%N;
+   [80; 104; 111; 110; 101]%N;
+   [84; 101; 108; 101; 112; 104; 111; 110; 101]%N;
+   [73; 110; 115; 117; 114; 97; 110; 99; 101]%N;
+   [82; 101; 108; 105; 103; 105; 111; 117; 115]%N;
+   [76; 97; 110; 103; 117; 97; 103; 101]%N;
+   [77; 105; 108; 105; 116; 97; 114; 121]%N;
+   [77; 101; 100; 105; 99; 97; 108; 82; 101; 99; 111; 114; 100]%N;
+   [69; 116; 104; 110; 105; 99]%N;
+   [79; 99; 99; 117; 112; 97; 116; 105; 111; 110]%N;
+   [85; 110; 107; 110; 111; 119; 110]%N;
+   [80; 114; 105; 118; 97; 116; 101; 84; 97; 103; 68; 97; 116; 97]%N;
+   [85; 73; 68]%N;
+   [83; 116; 117; 100; 121; 68; 101; 115; 99; 114; 105; 112; 116; 105; 111; 110]%N;
+   [68; 101; 118; 105; 99; 101; 83; 101; 114; 105; 97; 108; 78; 117; 109; 98; 101; 114]%N;
+   [82; 101; 102; 101; 114; 101; 110; 99; 101; 100; 73; 109; 97; 103; 101; 83; 101; 113; 117; 101; 110; 99; 101]%N;
+   [82; 101; 113; 117; 101; 115; 116; 101; 100; 80; 114; 111; 99; 101; 100; 117; 114; 101; 68; 101; 115; 99; 114; 105; 112; 116; 105; 111; 110]%N;
+   [80; 101; 114; 102; 111; 114; 109; 101; 100; 80; 114; 111; 99; 101; 100; 117; 114; 101; 83; 116; 101; 112; 68; 101; 115; 99; 114; 105; 112; 116; 105; 111; 110]%N;
+   [80; 101; 114; 102; 111; 114; 109; 101; 100; 80; 114; 111; 99; 101; 100; 117; 114; 101; 83; 116; 101; 112; 73; 68]%N].
+Theorem C14_default_no_weaker_than_baseline :
+  forallb (fun l => existsb (fun p => containsb p l) default_key_excl_res) baseline_excludes = true.
+Proof. vm_compute. reflexivity. Qed.
+
 (** non-vacuity: "PatientName" is filtered, "ImagePositionPatient" (contains "Patient") is kept, "EchoTime" is kept *)
 Example C14_example :
   default_filter [80;97;116;105;101;110;116;78;97;109;101]%N = true /\
